@@ -57,9 +57,29 @@ type faultStore struct {
 	own   string
 	armed bool
 	fired int
+	// frame fault: after the node's own new event was written, the next GetFrame (a consensus step of
+	// the same InsertEventAndRunConsensus call, before anything of the round is changed) fails once
+	frameMode  bool
+	frameArmed bool
+	frameFired int
+}
+
+func (s *faultStore) GetFrame(rr int) (*hg.Frame, error) {
+	if s.frameArmed {
+		s.frameArmed = false
+		s.frameFired++
+		return nil, fmt.Errorf("injected store failure (GetFrame)")
+	}
+	return s.Store.GetFrame(rr)
 }
 
 func (s *faultStore) SetEvent(e *hg.Event) error {
+	if s.frameMode && e.Creator() == s.own {
+		if _, err := s.Store.GetEvent(e.Hex()); err != nil {
+			s.frameArmed = true // the own event goes in; a later step of the same call fails
+		}
+		return s.Store.SetEvent(e)
+	}
 	if s.armed && e.Creator() == s.own {
 		if _, err := s.Store.GetEvent(e.Hex()); err == nil {
 			return s.Store.SetEvent(e) // an update of a stored event: not the insertion
@@ -72,7 +92,7 @@ func (s *faultStore) SetEvent(e *hg.Event) error {
 }
 
 func runC05(r *Result, thorough bool) {
-	r.Rule = "G2 runs of real cores (3-5 validators) with submissions of empty, duplicate-content, binary and ordinary transactions to random nodes, pulls truncated by the sync limit (1-5 events), failing pulls (an undecodable wire event injected into the answer) and failing self-events (the store refuses the node's own new event while its pool is non-empty); " +
+	r.Rule = "G2 runs of real cores (3-5 validators) with submissions of empty, duplicate-content, binary and ordinary transactions to random nodes, pulls truncated by the sync limit (1-5 events), failing pulls (an undecodable wire event injected into the answer) failing self-events (the store refuses the node's own new event while its pool is non-empty) and a consensus step that fails right after the node's own event entered the DAG (GetFrame; the unchanged code then can never extend its chain again and is taken out of the run); " +
 		"per node and step: accepted transactions (in order) = concatenation of its own events' payloads ++ pool, compared as lists with the Lean pool model; network oracle: every committed transaction was submitted byte for byte, no occurrence is committed twice (counted per content), every node delivers the same transactions. " +
 		"non-trivial: >=1 failed or truncated pull, >=1 failed self-event and >=5 submissions including duplicate content"
 	rng := rand.New(rand.NewSource(r.Seed))
@@ -89,7 +109,8 @@ func runC05(r *Result, thorough bool) {
 			faults[m.idx] = fs
 			return fs
 		})
-		selfFail := 0
+		selfFail, lateFail := 0, 0
+		stuck := map[int]bool{}
 		led := &txLedger{names: map[string][]int{}, perNode: map[int][]int{}, content: map[int][]byte{}}
 		steps := 250 + rng.Intn(200)
 		failed, truncated, dups := 0, 0, 0
@@ -97,6 +118,9 @@ func runC05(r *Result, thorough bool) {
 		opsLog := map[int][]string{}
 		ownEvents := map[int]int{}
 		observe := func(m *member) {
+			if stuck[m.idx] {
+				return
+			}
 			placed, pool, err := ownPayloads(m)
 			if err != nil {
 				return
@@ -148,7 +172,29 @@ func runC05(r *Result, thorough bool) {
 				id := led.submit(cl, t, tx)
 				opsLog[t.idx] = append(opsLog[t.idx], fmt.Sprintf("submit:%d", id))
 			}
-			switch rng.Intn(9) {
+			switch rng.Intn(10) {
+			case 9: // a consensus step fails right after the node's own event entered the DAG
+				if len(stuck) >= (n-1)/3 { // the others must stay a supermajority
+					cl.pull(a, b, -1)
+					break
+				}
+				fs := faults[a.idx]
+				ownBefore, _, _ := ownPayloads(a)
+				fs.frameMode = true
+				err := cl.pull(a, b, -1)
+				fs.frameMode, fs.frameArmed = false, false
+				ownAfter, _, _ := ownPayloads(a)
+				if err != nil && len(ownAfter) > len(ownBefore) {
+					lateFail++
+					if a.core.Seq() < len(ownAfter)-1 {
+						// the unchanged code: the event is in the DAG, head and pool were not advanced: the
+						// node can never extend its chain again (it needs a restart); its payload is in the
+						// event and still in the pool, but no second event can carry it
+						stuck[a.idx] = true
+						a.active = false
+						r.Inc("nodes_stuck_after_late_failure", 1)
+					}
+				}
 			case 8: // the store refuses the node's own new event: addSelfEvent fails, the pool must survive
 				fs := faults[a.idx]
 				ownBefore, _, _ := ownPayloads(a)
@@ -274,6 +320,7 @@ func runC05(r *Result, thorough bool) {
 		}
 		r.Inc("failed_pulls", failed)
 		r.Inc("failed_self_events", selfFail)
+		r.Inc("consensus_failures_after_own_insertion", lateFail)
 		r.Inc("truncated_pulls", truncated)
 		r.Count(fmt.Sprintf("run %d %d %d", ri, n, steps), failed+truncated >= 1 && selfFail >= 1 && tot >= 5 && dups >= 2)
 		cl.close()
